@@ -32,6 +32,10 @@
 #include <xalanc/XalanTransformer/XalanTransformer.hpp>
 #include <xalanc/XalanTransformer/XalanDocumentBuilder.hpp>
 #include <xalanc/XalanTransformer/XalanTransformerOutputStream.hpp>
+#include <xalanc/XercesParserLiaison/XercesParserLiaison.hpp>
+#include <xercesc/dom/DOM.hpp>
+#include <xalanc/XercesParserLiaison/FormatterToXercesDOM.hpp>
+#include <xalanc/XercesParserLiaison/XercesDOMException.hpp>
 
 #include <cstdio>
 #include <cstring>
@@ -269,6 +273,123 @@ static std::string doFst(const std::vector<std::string>& evs)
     }
 }
 
+// ---- eagerly built Xerces-DOM wrapper -------------------------------------------------------------
+//  wrap <ev>...   S:<name>[:<attr>=<value>]* (attributes in name order)  E  C:<text>  M:<comment>  P:<t>:<d>
+//  the DOM is built node by node (adjacent text nodes stay separate), wrapped with buildWrapper=true
+static std::string doWrap(const std::vector<std::string>& evs)
+{
+    namespace xc = xercesc;
+    xc::DOMDocument* const dom = xc::DOMImplementation::getImplementation()->createDocument();
+    std::string reply;
+    try
+    {
+        std::vector<xc::DOMNode*> stack;
+        stack.push_back(dom);
+        for (const std::string& e : evs)
+        {
+            const char k = e.empty() ? '?' : e[0];
+            std::vector<std::string> fl = split(e, ':');
+            U16 a, c;
+            if (k == 'S')
+            {
+                if (fl.size() < 2 || !unitsOf(fl[1], a)) { dom->release(); return "bad"; }
+                xc::DOMElement* el = dom->createElement(&a[0]);
+                for (size_t i = 2; i < fl.size(); ++i)
+                {
+                    std::vector<std::string> nv = split(fl[i], '=');
+                    U16 an, av;
+                    if (nv.size() != 2 || !unitsOf(nv[0], an) || !unitsOf(nv[1], av)) { dom->release(); return "bad"; }
+                    el->setAttribute(&an[0], &av[0]);
+                }
+                stack.back()->appendChild(el);
+                stack.push_back(el);
+            }
+            else if (k == 'E') { if (stack.size() < 2) { dom->release(); return "bad"; } stack.pop_back(); }
+            else if (k == 'C') { if (fl.size() != 2 || !unitsOf(fl[1], a)) { dom->release(); return "bad"; } stack.back()->appendChild(dom->createTextNode(&a[0])); }
+            else if (k == 'M') { if (fl.size() != 2 || !unitsOf(fl[1], a)) { dom->release(); return "bad"; } stack.back()->appendChild(dom->createComment(&a[0])); }
+            else if (k == 'P') { if (fl.size() != 3 || !unitsOf(fl[1], a) || !unitsOf(fl[2], c)) { dom->release(); return "bad"; } stack.back()->appendChild(dom->createProcessingInstruction(&a[0], &c[0])); }
+            else { dom->release(); return "bad"; }
+        }
+        XercesParserLiaison liaison;
+        XalanDocument* const w = liaison.createDocument(dom, true, true, true);
+        g_ordered = true;
+        g_last = 0;
+        noteIndex(w);
+        std::string dump;
+        dumpChain(w->getFirstChild(), dump);
+        reply = "ok " + (dump.empty() ? std::string("-") : dump) + (g_ordered ? " ord=1" : " ord=0") + " max=" + std::to_string((unsigned long)g_last);
+        liaison.destroyDocument(w);
+    }
+    catch (const xc::DOMException&) { reply = "err dom"; }
+    catch (const XalanDOMException&) { reply = "err dom"; }
+    dom->release();
+    return reply;
+}
+
+// ---- FormatterToXercesDOM as result target -------------------------------------------------------------
+//  xdom <ev>...  same events as `fst`; the DOM built is shown through a non-indexed wrapper (CDATASection nodes as text)
+static std::string doXdom(const std::vector<std::string>& evs)
+{
+    namespace xc = xercesc;
+    xc::DOMDocument* const dom = xc::DOMImplementation::getImplementation()->createDocument();
+    std::string reply;
+    try
+    {
+        FormatterToXercesDOM f(dom, 0);
+        f.startDocument();
+        for (const std::string& e : evs)
+        {
+            const char k = e.empty() ? '?' : e[0];
+            std::vector<std::string> fl = split(e, ':');
+            U16 a, c;
+            if (k == 'S')
+            {
+                if (fl.size() < 2 || !unitsOf(fl[1], a)) { dom->release(); return "bad"; }
+                AttributeListImpl attrs(XalanMemMgrs::getDefaultXercesMemMgr());
+                for (size_t i = 2; i < fl.size(); ++i)
+                {
+                    std::vector<std::string> nv = split(fl[i], '=');
+                    U16 an, av;
+                    if (nv.size() != 2 || !unitsOf(nv[0], an) || !unitsOf(nv[1], av)) { dom->release(); return "bad"; }
+                    static const XalanDOMChar cdata[] = { 'C', 'D', 'A', 'T', 'A', 0 };
+                    attrs.addAttribute(&an[0], cdata, &av[0]);
+                }
+                f.startElement(&a[0], attrs);
+            }
+            else if (k == 'E') { static const XalanDOMChar nm[] = { 'x', 0 }; f.endElement(nm); }
+            else if (k == 'C') { if (fl.size() != 2 || !unitsOf(fl[1], a)) { dom->release(); return "bad"; } f.characters(&a[0], a.size() - 1); }
+            else if (k == 'K') { if (fl.size() != 2 || !unitsOf(fl[1], a)) { dom->release(); return "bad"; } f.cdata(&a[0], a.size() - 1); }
+            else if (k == 'R') { if (fl.size() != 2 || !unitsOf(fl[1], a)) { dom->release(); return "bad"; } f.charactersRaw(&a[0], a.size() - 1); }
+            else if (k == 'W') { if (fl.size() != 2 || !unitsOf(fl[1], a)) { dom->release(); return "bad"; } f.ignorableWhitespace(&a[0], a.size() - 1); }
+            else if (k == 'M') { if (fl.size() != 2 || !unitsOf(fl[1], a)) { dom->release(); return "bad"; } f.comment(&a[0]); }
+            else if (k == 'P') { if (fl.size() != 3 || !unitsOf(fl[1], a) || !unitsOf(fl[2], c)) { dom->release(); return "bad"; } f.processingInstruction(&a[0], &c[0]); }
+            else { dom->release(); return "bad"; }
+        }
+        f.endDocument();
+        XercesParserLiaison liaison;
+        XalanDocument* const w = liaison.createDocument(dom, false, false, false);
+        std::string dump;
+        g_ordered = true; g_last = 0;
+        dumpChain(w->getFirstChild(), dump);
+        reply = "ok " + (dump.empty() ? std::string("-") : dump);
+        liaison.destroyDocument(w);
+    }
+    catch (const XercesDOMException& e)
+    {
+        reply = e.getExceptionCode() == XalanDOMException::HIERARCHY_REQUEST_ERR ? "err hierarchy" : "err dom";
+    }
+    catch (const XalanDOMException& e)
+    {
+        reply = e.getExceptionCode() == XalanDOMException::HIERARCHY_REQUEST_ERR ? "err hierarchy" : "err dom";
+    }
+    catch (const xc::DOMException& e)
+    {
+        reply = e.code == xc::DOMException::HIERARCHY_REQUEST_ERR ? "err hierarchy" : "err dom";
+    }
+    dom->release();
+    return reply;
+}
+
 // ---- callback stream --------------------------------------------------------------------------
 struct Sink
 {
@@ -315,6 +436,7 @@ static std::string doOut(const std::vector<std::string>& t)
                 else if (e[0] == 'n') { if (f.size() != 2 || !bytesOf(f[1], by)) return "bad"; pw.write(by.data(), 0, by.size()); }
                 else if (e[0] == 'f') pw.flush();
                 else if (e[0] == 'u') os.setOutputEncoding(XalanDOMString("UTF-16"));
+                else if (e[0] == 'e') os.setOutputEncoding(XalanDOMString("UTF-8"));   // a real pair-aware transcoder
                 else return "bad";
             }
             // what the serializer's endDocument does; without it a refusing handler would make the destructor's
@@ -361,6 +483,8 @@ int main()
             if (sub == "sax") r = doSax(tr, t);
             else if (sub == "out") r = doOut(t);
             else if (sub == "fst") r = doFst(t);
+            else if (sub == "wrap") r = doWrap(t);
+            else if (sub == "xdom") r = doXdom(t);
             else if (sub == "data") r = t.size() == 1 ? doData(t[0]) : "bad";
             else r = "bad";
             std::cout << r << "\n";
